@@ -225,7 +225,7 @@ def m_replace(ip, s, old, new, count=-1):
         raise Unsupported("replace with symbolic count")
     if count == 1:
         return mkstr(z3.Replace(to_z3str(s), to_z3str(old), to_z3str(new)), _isb(s))
-    if isinstance(s, SStr) and isinstance(old, (str, bytes)) and isinstance(new, (str, bytes)) and len(old) == 1:
+    if isinstance(s, SStr) and isinstance(old, (str, bytes)) and isinstance(new, (str, bytes)) and len(old) >= 1:
         from . import shape
         ps = shape.pieces_of(s.t)
         if ps is not None:
